@@ -29,7 +29,7 @@ MAX_TIMEOUTS = {"quick": 1, "thorough": 20}
 REQUIRED = {"supplied_atoms_checked": 2000, "centre_only_residues": 100, "generated_residues": 300,
             "prefix_runs": 20, "build_res_runs": 15, "ignore_runs": 25, "failed_attempts_seen": 40,
             "supplied_checks_after_removal": 200, "ignore_positions": 3,
-            "meta_build_res_runs": 8}
+            "meta_build_res_runs": 8, "injected_step_schedules": 30}
 
 
 def plan(tier, seed):
@@ -54,10 +54,16 @@ def run_case(cid, rng, workdir):
         res["status"] = "rejected"
         return res
     ctx_kw = {}
-    if rng.random() < 0.5:
+    c = rng.random()
+    if c < 0.4:
         ctx_kw["fail_attempts_left"] = rng.randint(1, 3)
         if rng.random() < 0.4:
             kw["maxiter"] = rng.choice([1, 2])
+    elif c < 0.75:
+        # step-level failures: rewinds that span supplied residues
+        kw["nrewind"] = rng.choice([2, 3, 4, 5])
+        ctx_kw["step_schedule"] = iter([rng.random() < 0.75 for _ in range(rng.randint(6, 30))])
+        bump(res, "injected_step_schedules")
     outp = Path(workdir) / "o.gro"
     run, ctx = CC.run_gen_coords(ctx_kw=ctx_kw, toppath=Path(workdir) / "s.top", outpath=outp, name="x", **kw)
     opts = {k: (v.tolist() if hasattr(v, "tolist") else str(v) if isinstance(v, (Path, list)) else v) for k, v in kw.items()}
@@ -135,12 +141,13 @@ def run_ignore(cid, rng, workdir, res):
     sysd = T.gen_system(rng, min_res=1, max_types=2)
     # a dedicated molecule type that will be ignored, with its own residue name
     tn = sorted(sysd["atypes"])[0]
-    sysd["residues"]["WAT"] = {"name": "WAT", "kind": "single", "atoms": [{"name": "W", "atype": tn, "charge": 0.0, "mass": None}],
+    wname = rng.choice(["WAT", "SOL", "NA"])          # common solvent / ion residue names included
+    sysd["residues"][wname] = {"name": wname, "kind": "single", "atoms": [{"name": "W", "atype": tn, "charge": 0.0, "mass": None}],
                                "bonds": [], "angles": [], "vs": []}
     if rng.random() < 0.4:
-        sysd["residues"]["WAT"]["atoms"].append({"name": "W2", "atype": tn, "charge": 0.0, "mass": None})
-        sysd["residues"]["WAT"]["bonds"].append((0, 1, 0.3, 5000))
-    sysd["moltypes"].append({"name": "SOL", "res": ["WAT"], "edges": [], "links": [], "shape": "lin"})
+        sysd["residues"][wname]["atoms"].append({"name": "W2", "atype": tn, "charge": 0.0, "mass": None})
+        sysd["residues"][wname]["bonds"].append((0, 1, 0.3, 5000))
+    sysd["moltypes"].append({"name": "SOL", "res": [wname], "edges": [], "links": [], "shape": "lin"})
     where = rng.choice(["first", "middle", "last", "repeated", "repeated"])
     mols = [(n, c) for n, c in sysd["molecules"] if n != "SOL"]
     cnt = rng.randint(1, 4)
@@ -169,11 +176,11 @@ def run_ignore(cid, rng, workdir, res):
             continue
         c = np.array([round(rng.uniform(0.3, b - 0.3), 3) for _ in range(3)])
         g = {"mol": mi, "rows": []}
-        for j, a in enumerate(sysd["residues"]["WAT"]["atoms"]):
+        for j, a in enumerate(sysd["residues"][wname]["atoms"]):
             xyz = tuple(round(float(x), 3) for x in (c + np.array([0.3 * j, 0, 0])))
             if xyz[0] > b:
                 xyz = (round(b - 0.01, 3), xyz[1], xyz[2])
-            rows.append({"resid": 1, "resname": "WAT", "name": a["name"], "xyz": xyz})
+            rows.append({"resid": 1, "resname": wname, "name": a["name"], "xyz": xyz})
             g["rows"].append(xyz)
         groups.append(g)
     T.write_gro(os.path.join(workdir, "in.gro"), rows, box)
